@@ -43,6 +43,8 @@ type gproc struct {
 	release chan struct{}
 	steps   int
 	done    bool // client finished its script
+	rets    int    // client: calls that have returned
+	lastRet string // client: the op of the last call that returned
 }
 
 // labels that are logged but never park (they execute while a library lock is held)
@@ -356,6 +358,18 @@ func (g *gate) parked() []*gproc {
 		if p.at != "" {
 			out = append(out, p)
 		}
+	}
+	return out
+}
+
+// allProcs returns a snapshot (copies) of every registered goroutine's bookkeeping
+func (g *gate) allProcs() []*gproc {
+	g.mu.Lock()
+	defer g.mu.Unlock()
+	out := make([]*gproc, 0, len(g.order))
+	for _, p := range g.order {
+		q := *p
+		out = append(out, &q)
 	}
 	return out
 }
